@@ -99,7 +99,9 @@ func (e *Engine) VerifyFunc(c *FuncContract) *FnCtx {
 		fc.modEvery = true
 	}
 	for _, n := range c.ModAll {
-		fc.modAll[fc.resolveHeapName(n, c.Pkg)] = true
+		for _, hn := range fc.resolveHeapNames(n, c.Pkg) {
+			fc.modAll[hn] = true
+		}
 	}
 	for _, m := range c.Modifies {
 		locs, err := env.evalLocs(m)
